@@ -10,7 +10,28 @@ import traceback
 from vc.core import ROOT, Session, Unsupported, EngineError
 
 
+def _watchdog(prop: str, tier: str):
+    """A check never hangs: past the wall-clock limit (a non-terminating function under test, a runaway solver) the
+    whole process group is stopped with exit 3 (engine error, never a violation)."""
+    import signal
+    import threading
+    limit = int(os.environ.get('VERIF_WALL_LIMIT', '1800' if tier == 'quick' else '14400'))
+
+    def fire():
+        print(f'ENGINE-ERROR: {prop} {tier} did not finish within {limit} s (stopped by the watchdog)', flush=True)
+        try:
+            import multiprocessing
+            for ch in multiprocessing.active_children():
+                ch.kill()
+        finally:
+            os._exit(3)
+    t = threading.Timer(limit, fire)
+    t.daemon = True
+    t.start()
+
+
 def run_property(prop: str, tier: str) -> int:
+    _watchdog(prop, tier)
     seed = int(os.environ.get('VERIF_SEED', '0') or 0)
     tier = os.environ.get('VERIF_TIER', tier) if tier not in ('quick', 'thorough') else tier
     sess = Session(prop, tier, seed)
@@ -43,7 +64,8 @@ WRAPPER_PROPS = {'C04', 'C08', 'C09', 'C10', 'C17'}
 
 def infrastructure(sess: Session):
     from contracts import infra
-    obs = []
+    obs = infra.purity_obligations(sess.prop) if sess.prop != 'C16' else []
+    obs += infra.generator_use_obligations(sess.prop)
     if sess.prop in DB_PROPS:
         obs += infra.db_obligations(sess.prop)
     if sess.prop in FORMAT_PROPS:
